@@ -190,6 +190,17 @@ func (s *Sim) Yield(site string) {
 	s.B.Wait(t.slot)
 }
 
+// YieldBlocked is Yield for a task that cannot go on (it waits for a lock another,
+// parked task holds): whatever its quantum, control goes back to the scheduler.
+//
+//go:norace
+func (s *Sim) YieldBlocked(site string) {
+	if t := s.cur; t != nil {
+		t.quantum = 0
+	}
+	s.Yield(site)
+}
+
 // Stamp returns the next event sequence number without yielding (history stamps).
 //
 //go:norace
